@@ -628,3 +628,46 @@ func loopMayAllocate(body map[*ssa.BasicBlock]bool) bool {
 	}
 	return false
 }
+
+// assertArgsNotOwned: at a call of a function value supplied by the
+// environment, no argument may point into an object of an enclosing loop's
+// modifies clause (the memory the library owns and keeps writing): the callee
+// is assumed not to touch that memory, which is only justified if it cannot
+// reach it. Evaluated in the current state (obj(vm.stack) moves as it grows).
+func (e *Exec) assertArgsNotOwned(st *State, fr *Frame, args []*Value) {
+	for h, snap := range fr.loopSnap {
+		if snap == nil || !snap.framed || fr.cur == nil || !loopBodyCached(h)[fr.cur] {
+			continue
+		}
+		env := &SpecEnv{e: e, st: st, old: fr.entryState, vars: map[string]*Value{}, fn: fr.fn, bound: map[string]*Value{}}
+		env.lookup = e.nameLookup(st, fr, h)
+		label := e.pathLabel(st, fr, snap.spec, env)
+		objs, _ := e.frameMembers(snap.spec, env)
+		var gs []*Term
+		for _, a := range args {
+			for _, l := range a.L {
+				var ptrs []*Term
+				switch l.Sort {
+				case SLoc:
+					ptrs = append(ptrs, l)
+				case SVal:
+					c := ctorOf(l)
+					if c == "" || c == "VSlice" {
+						ptrs = append(ptrs, Ite(Is("VSlice", l), VSel("sl_ptr", l), NilLoc))
+					}
+					if c == "" || c == "VPtr" {
+						ptrs = append(ptrs, Ite(Is("VPtr", l), VSel("ptr_of", l), NilLoc))
+					}
+				}
+				for _, p := range ptrs {
+					for _, o := range objs {
+						gs = append(gs, Or(Eq(p, NilLoc), Not(Eq(LObj(p), o))))
+					}
+				}
+			}
+		}
+		if len(gs) > 0 {
+			e.Assert(fmt.Sprintf("%s/loop:%s%s/env-call:args-not-owned", shortName(fr.fn), snap.ord, label), "frame", fr.fn.String(), st, And(gs...), "arguments handed to an environment function do not point into memory the library owns")
+		}
+	}
+}
